@@ -303,6 +303,15 @@ pub trait ExWrite {
 #[verifier::external_trait_specification]
 pub trait ExRead {
     type ExternalTraitSpecificationFor: std::io::Read;
+    /// one `read` call may deliver ANY non-empty prefix of what was asked (short reads), or fail (Interrupted included)
+    fn read(&mut self, buf: &mut [u8]) -> (r: io::Result<usize>)
+        ensures
+            rd_bytes(final(self)) == rd_bytes(old(self)), rd_reliable(final(self)) == rd_reliable(old(self)),
+            rd_loads(final(self)) == rd_loads(old(self)),
+            final(buf)@.len() == old(buf)@.len(),
+            r is Ok ==> r->Ok_0 <= old(buf)@.len() && 0 <= rd_pos(old(self)) && rd_pos(old(self)) + r->Ok_0 <= rd_bytes(old(self)).len()
+               && final(buf)@.subrange(0, r->Ok_0 as int) == rd_bytes(old(self)).subrange(rd_pos(old(self)), rd_pos(old(self)) + r->Ok_0)
+               && rd_pos(final(self)) == rd_pos(old(self)) + r->Ok_0;
     /// std default loop over `read`: fills buf completely or fails; independent of how reads are split
     fn read_exact(&mut self, buf: &mut [u8]) -> (r: io::Result<()>)
         ensures
